@@ -27,7 +27,7 @@ CHECKS = {
         ref="DESIGN.md §3 C11"),
     "C14": dict(
         category="other",
-        text="Reference semantics as type/ownership facts (Pointer: Copy with an index-only Reference payload; no clone of heap objects or their element storage in the VM; element storage written only by set_element/set_field on the heap-resident object; heap append-only) plus handler-template rules for dispatch order, arity checks and get/set/operator sugar. Structural, each rule a necessary condition.",
+        text="Reference semantics as type/ownership facts (Pointer: Copy with an index-only Reference payload; no clone of heap objects or their element storage in the VM; element storage written only by set_element/set_field on the heap-resident object; heap append-only) plus handler-template rules for dispatch order, arity checks and get/set/operator sugar. Structural, each rule a necessary condition. Identity: every object / array creation allocates and yields a fresh reference (C05's Object/Array rows as a presupposition); array get/set arity probed through the dispatch entry.",
         note=TB,
         technique="static analysis: ADT/impl facts, who-may-write / who-may-call / clone census on HIR+MIR call graph; effect templates of the dispatch functions",
         ref="DESIGN.md §3 C14"),
@@ -42,13 +42,13 @@ CHECKS = {
 CHECKS.update({
     "C02": dict(
         category="other",
-        text="The compiler can only emit what its 20 syntax-directed templates emit. Each arm of compile_into is executed symbolically (HIR, keep ∈ {true,false}, every frame alternative) and the instruction template — recursive compiles as placeholders that net [keep] by induction, list children as symbolic counts — is interpreted over the abstract VM S1: stack-depth dataflow over the template's own control flow (net [keep], never below entry, equal depth at label joins, exactly 1 at Return, method buffers start at 0), operand counts vs values pushed, constant kinds, label provenance from a strictly increasing group counter, buffer linearity, frame sizes. Intended sound for the whole statement relative to S1 and the std models; side conditions on parser output (non-empty blocks, Function only under Top/object, root is Top) are discharged on the grammar.",
+        text="The compiler can only emit what its 20 syntax-directed templates emit. Each arm of compile_into is executed symbolically (HIR, keep ∈ {true,false}, every frame alternative) and the instruction template — recursive compiles as placeholders that net [keep] by induction, list children as symbolic counts — is interpreted over the abstract VM S1: stack-depth dataflow over the template's own control flow (net [keep], never below entry, equal depth at label joins, exactly 1 at Return, method buffers start at 0), operand counts vs values pushed, constant kinds, label provenance from a strictly increasing group counter, buffer linearity, frame sizes. Intended sound for the whole statement relative to S1 and the std models; side conditions on parser output (non-empty blocks, Function only under Top/object, root is Top) are discharged on the grammar. The side conditions on the parser's output (definitions occur only at top level or as object members; block and top-level lists are non-empty) are C07's R7.shape obligations, evaluated as a presupposition.",
         note=TB + "; induction hypothesis 'a child compiled with keep nets [keep]'; symbolic executor + std models",
         technique="static analysis: symbolic execution of the compiler's HIR into effect templates + abstract interpretation of the templates over an abstract stack machine",
         ref="DESIGN.md §3 C02"),
     "C12": dict(
         category="other",
-        text="Scoping decided on the compiler's templates and the Environment component: only the Block arm opens/closes a scope (paired, on the environment the frame kind selects); the decision structure of let / read / assign, extracted as path conditions by symbolic execution, is evaluated over all 16 worlds (frame kind × visibility × outermost) and compared with the S10 table; each Environment method, executed down to HashMap/Vec primitives, equals its role model (bind-fresh, innermost-first lookup, fresh scope ids, insert-only slots, outermost ⇔ stack length 1); function/method bodies get a fresh environment with [this?]++parameters in a Local frame; VM calls build fresh null-initialised frames. Structural, each rule necessary.",
+        text="Scoping decided on the compiler's templates and the Environment component: only the Block arm opens/closes a scope (paired, on the environment the frame kind selects); the decision structure of let / read / assign, extracted as path conditions by symbolic execution, is evaluated over all 16 worlds (frame kind × visibility × outermost) and compared with the S10 table; each Environment method, executed down to HashMap/Vec primitives, equals its role model (bind-fresh, innermost-first lookup, fresh scope ids, insert-only slots, outermost ⇔ stack length 1); function/method bodies get a fresh environment with [this?]++parameters in a Local frame; VM calls build fresh null-initialised frames. Structural, each rule necessary. Every tree an arm compiles in the current environment is part of the node being compiled (R12.place): a body fetched from a table and compiled at the call site would capture the caller's scope.",
         note=TB + "; S10 table from the README; HashMap/Vec behave as documented",
         technique="static analysis: symbolic execution + finite decision-table evaluation + component model matching + who-may-write census",
         ref="DESIGN.md §3 C12"),
@@ -69,13 +69,13 @@ CHECKS["C05"] = dict(
 
 CHECKS["C03"] = dict(
     category="other",
-    text="Inverse-ness decided as agreement of two syntax-directed templates: writer (Program::serialize ↓) and reader (Program::from_bytes ↓) are executed symbolically down to write_all/read_exact; for the 7 constant kinds, the 17 opcodes and the program frame the extracted layouts coincide token by token (tag, field order and destination, width, endianness, counts, element kinds); tag tables injective and mutually inverse; primitive pairs inverse by construction; narrowing casts range-asserted; loader appends method code in pool order while the writer emits each method's own range forwards; labels derived by one shared function; the loaded pool holds the file's constants one-to-one in file order, no sequence passes through a reordering/deduplicating collection, decoded numbers reach their fields unchanged, and the CLI's input reader is byte-transparent (file/stdin under Box/BufReader, or a Cursor over the bytes as read). Necessary and, with the primitive rules, essentially sufficient at the byte level; 'same behaviour when executed' follows only together with C05.",
+    text="Inverse-ness decided as agreement of two syntax-directed templates: writer (Program::serialize ↓) and reader (Program::from_bytes ↓) are executed symbolically down to write_all/read_exact; for the 7 constant kinds, the 17 opcodes and the program frame the extracted layouts coincide token by token (tag, field order and destination, width, endianness, counts, element kinds); tag tables injective and mutually inverse; primitive pairs inverse by construction; narrowing casts range-asserted; loader appends method code in pool order while the writer emits each method's own range forwards; labels derived by one shared function; the loaded pool holds the file's constants one-to-one in file order, no sequence passes through a reordering/deduplicating collection, decoded numbers reach their fields unchanged, and the CLI's input reader is byte-transparent (file/stdin under Box/BufReader, or a Cursor over the bytes as read). Necessary and, with the primitive rules, essentially sufficient at the byte level; 'same behaviour when executed' follows only together with C05. On every reader path that builds a Method the instructions read are appended once with the range starting at the previous length; the CLI's input reader is the file / stdin under byte-transparent wrappers, is not used before it is stored, and nobody but the forwarding Read/BufRead impls and whole-input reads takes bytes from it.",
     note=TB + "; to_le_bytes/from_le_bytes mutually inverse; symbolic executor + std models",
     technique="static analysis: symbolic execution of serializer and loader into layout templates + token-wise agreement, tag-table inversion, cast/assert census",
     ref="DESIGN.md §3 C03")
 CHECKS["C04"] = dict(
     category="other",
-    text="Writer AND reader layouts (extracted by symbolic execution down to write_all/read_exact, per constant kind, per opcode and for the program frame) are each compared with S3, an independent grammar written from the property statement and the Feeny opcode numbering, and with the numbers in the doc comments — so a symmetric change of width, endianness, tag, field order or 'length in chars' is caught; nothing is written after the entry index, the compile action writes nothing else and truncates its output file; the loaded pool holds the file's constants one-to-one in order and the input reader is byte-transparent. Intended sound for 'every emitted file is exactly …' and for the reader accepting exactly that grammar.",
+    text="Writer AND reader layouts (extracted by symbolic execution down to write_all/read_exact, per constant kind, per opcode and for the program frame) are each compared with S3, an independent grammar written from the property statement and the Feeny opcode numbering, and with the numbers in the doc comments — so a symmetric change of width, endianness, tag, field order or 'length in chars' is caught; nothing is written after the entry index, the compile action writes nothing else and truncates its output file; the loaded pool holds the file's constants one-to-one in order and the input reader is byte-transparent. Intended sound for 'every emitted file is exactly …' and for the reader accepting exactly that grammar. Nobody but the loader reads from the CLI's input (who-reads-the-input census; stored-reader provenance through locals and constructor parameters).",
     note=TB + "; S3 grammar (DESIGN A.3)",
     technique="static analysis: symbolic execution into layout templates + comparison with an independent layout grammar",
     ref="DESIGN.md §3 C04")
@@ -88,7 +88,7 @@ CHECKS["C07"] = dict(
     ref="DESIGN.md §3 C07")
 CHECKS["C09"] = dict(
     category="other",
-    text="The built-in operations are finite decision tables. First-match pattern semantics (or-patterns, guards) are evaluated over {every spelling that occurs, OTHER} × {Null, Integer, Boolean, Reference} for the three dispatch tables; every cell's action — a closed form over receiver and argument whose meaning is fixed by the operator/method identity — equals S4, including Feeny spellings and operand order; argument count ≠ 1 fails first; an operator application is compiled whether or not its value is used (failing is an effect). Because actions are closed forms over i32 this decides the tables for all operand values. Build independence is decided at the operator level: plain + - * / unary - on i32 inherit overflow checks and are rejected (wrapping_* required); / and % check unconditionally.",
+    text="The built-in operations are finite decision tables. First-match pattern semantics (or-patterns, guards) are evaluated over {every spelling that occurs, OTHER} × {Null, Integer, Boolean, Reference} for the three dispatch tables; every cell's action — a closed form over receiver and argument whose meaning is fixed by the operator/method identity — equals S4, including Feeny spellings and operand order; argument count ≠ 1 fails first; an operator application is compiled whether or not its value is used (failing is an effect). Because actions are closed forms over i32 this decides the tables for all operand values. Build independence is decided at the operator level: plain + - * / unary - on i32 inherit overflow checks and are rejected (wrapping_* required); / and % check unconditionally. That a failing built-in fails the program (its Err reaches the exit status) is C10's propagation obligations, evaluated as a presupposition (R9.fails).",
     note=TB + "; Rust operator semantics on i32; LLVM",
     technique="static analysis: match-table extraction + finite first-match evaluation + operator/operand-type census",
     ref="DESIGN.md §3 C09")
@@ -107,7 +107,7 @@ CHECKS["C01"] = dict(
     ref="DESIGN.md §3 C01")
 CHECKS["C06"] = dict(
     category="other",
-    text="Explicitly partial: decided are the serde derive/attribute facts of the AST types, the per-format crate tables in both directions, extension/name tables vs S7 and their mutual inverse-ness, the format-selection logic of the parse and compile actions (explicit flag, else extension), one shared bytecode::compile, the parse action's single complete write into a truncated output, that serialize/deserialize return the format crate's own result for exactly their argument (symbolic execution: no post-processing of the text), that stage inputs are decoded as a whole (no chunk-wise decoding), and that no stage boundary deserialises the recursive AST through a depth-limited entry point (three genuine findings on file). NOT decided: string fidelity through serde_json/serde_yaml/serde_lexpr for all Unicode strings (third-party behaviour), the bash wrapper, stdin/stdout plumbing at run time.",
+    text="Explicitly partial: decided are the serde derive/attribute facts of the AST types, the per-format crate tables in both directions, extension/name tables vs S7 and their mutual inverse-ness, the format-selection logic of the parse and compile actions (explicit flag, else extension), one shared bytecode::compile, the parse action's single complete write into a truncated output, that serialize/deserialize return the format crate's own result for exactly their argument (symbolic execution: no post-processing of the text), that stage inputs are decoded as a whole (no chunk-wise decoding), and that no stage boundary deserialises the recursive AST through a depth-limited entry point (three genuine findings on file). NOT decided: string fidelity through serde_json/serde_yaml/serde_lexpr for all Unicode strings (third-party behaviour), the bash wrapper, stdin/stdout plumbing at run time. The input side of every stage is byte-transparent and read by its consumer only (same reader obligations as C03/C04).",
     note=TB + "; serde derive generates mutually inverse impls for attribute-free types; third-party format crates round-trip their own output (not analysed)",
     technique="static analysis: ADT/derive/attribute facts from the expanded AST, match-table extraction, call-graph and who-may-call census of depth-limited deserialisers",
     ref="DESIGN.md §3 C06")
